@@ -67,10 +67,20 @@ class Result:
                 values are dictionaries containing the frequency and the
                 post-measurement state corresponding to the outcome.
         """
-        return {
-            branch.outcome: {"frequency": branch.frequency, "state": branch.state}
-            for branch in self.branches
-        }
+        ret: dict = {}
+
+        for branch in self.branches:
+            # NOTE: Several branches may carry the same outcome (e.g., the Gaussian
+            # measurements return one branch per sample), hence the frequencies add up.
+            if branch.outcome in ret:
+                ret[branch.outcome]["frequency"] += branch.frequency
+            else:
+                ret[branch.outcome] = {
+                    "frequency": branch.frequency,
+                    "state": branch.state,
+                }
+
+        return ret
 
     @property
     def branches(self) -> List[Branch]:
